@@ -144,7 +144,9 @@ fn sessim_step(
         };
         ctx.step += 1;
         let step = ctx.step;
-        if ctx.step > ctx.budget && !ctx.budget_exceeded {
+        if ctx.step > ctx.budget {
+            // Step budget of this round exhausted: abandon this evaluation (and
+            // any further one in the same round) as a Ctrl-C would.
             ctx.budget_exceeded = true;
             if let Some(f) = &ctx.raw_flag {
                 return Act::Raw(Arc::clone(f));
